@@ -1338,7 +1338,14 @@ func (x *Exec) convert(s *State, fr *Frame, v Value, from, to types.Type, pos to
 				}
 			}
 			return &Scalar{T: x.ctx.Share(res)}
-		case fb.Kind() == types.UnsafePointer && tb.Kind() == types.Uintptr, fb.Kind() == types.Uintptr && tb.Kind() == types.UnsafePointer:
+		case fb.Kind() == types.UnsafePointer && tb.Kind() == types.Uintptr:
+			// The address of a byte: an unknown base address of its region plus the offset
+			// (only differences of addresses inside one region are determined).
+			if p, ok := v.(*PtrV); ok && p.Prov == "uint8" {
+				return &Scalar{T: x.ctx.Share(Add64(x.ctx.UF("rgn$base", SBV64, p.Rgn), p.Off))}
+			}
+			unsup("conversion of a non-byte unsafe.Pointer to uintptr")
+		case fb.Kind() == types.Uintptr && tb.Kind() == types.UnsafePointer:
 			unsup("conversion between unsafe.Pointer and uintptr")
 		case fb.Info()&types.IsString != 0 && tb.Info()&types.IsString != 0:
 			return v
